@@ -812,6 +812,16 @@ def engine():
         "SecretBox.decrypt": ["good_decrypt"], "SecretBox.encrypt": [], "SPAKE2.start": [], "SPAKE2.finish": [],
         "sha256.digest": [], "ClientService.*": [],
         "DeferredLike.*": ["stopped_pending", "stopped_done", "service_stopped", "error_cb_pending"],
+        "*.addBoth": ["stopped_pending", "stopped_done", "service_stopped", "error_cb_pending"],
+        "*.addCallback": ["stopped_pending", "stopped_done", "service_stopped", "error_cb_pending"],
+        "*.addErrback": [],
+        "*.decrypt": ["good_decrypt"], "*.encrypt": [],
+        # pure library calls on module objects / locals that occur in the cluster's source
+        "*.err": [], "*.msg": [], "*.maybeDeferred": [], "*.search": [], "*.fullmatch": [], "*.upper": [], "*.urandom": [],
+        "*.Deferred": [], "*.succeed": [], "*.flush": [], "*.setProtocolOptions": [], "*.deferLater": [], "*.random": [],
+        "*.current_thread": [], "*.ClientService": [], "*.HostnameEndpoint": [], "*.clientFromString": [],
+        "*.AlreadyChoseNameplateError": [], "*.AlreadyChoseWordsError": [], "*.MustChooseNameplateFirstError": [],
+        "*.ServerConnectionError": [], "*._UnknownMessageTypeError": [],
         "*.callback": [], "*.append": [], "*.add": [], "*.pop": [], "*.popleft": [], "*.startswith": [], "*.get": [],
         "*.encode": [], "*.split": [], "*.items": [], "*.group": [], "*.digest": [], "*.lower": [], "*.join": [],
         "PGPWordList.*": [], "Helper.*": [], "Undeclared__wordlist.*": [],
